@@ -144,3 +144,22 @@ Definition run_case2 (sw : switches) (orc : oracles) (panics : ssite -> bool) (s
 (* the same with the switch values regenerated from the source *)
 Definition run_case2_now (sw : switches) (orc : oracles) :=
   run_case2 sw orc ssite_panics save_switches_now.
+
+(* ---------- the property's own oracle on the model ----------
+   the exploration transcript (CONT / END lines of every choice path up to the
+   depth bound) of the story as the script left it, against the transcript of
+   the story restored by SAVE k; LOADNEW k at that point *)
+Fixpoint texts_eqb (a b : list text) : bool :=
+  match a, b with
+  | [], [] => true
+  | x :: a', y :: b' => text_eqb x y && texts_eqb a' b'
+  | _, _ => false
+  end.
+
+Definition restored_differs (sw : switches) (orc : oracles) (panics : ssite -> bool) (ssw : save_switches)
+           (j : json) (seed : Z) (fuel : N) (script : list hostop2) (dep budget : nat) : bool :=
+  let n := length script in
+  let a := run_case2 sw orc panics ssw j seed fuel script (Some (dep, budget)) in
+  let b := run_case2 sw orc panics ssw j seed fuel
+                     (script ++ [HSave (T "k"); HLoadNew (T "k")]) (Some (dep, budget)) in
+  negb (texts_eqb (skipn (S n) a) (skipn (S n + 2) b)).
